@@ -1,15 +1,20 @@
-"""C17 correspondence + search: the real `SOCKSProxy._handshake` (on a fake loop object that
-provides `sock_recv` / `sock_sendall`), the real protocol objects driven by hand, and the real
-`_detect_proxy` (fake `asyncio` / `socket` names inside `aiorpcx.socks`) vs the Lean model
-(`drv_c17`); and the property oracle on every implementation trace.
+"""C17 correspondence + search: the real handshake, driven through the PUBLIC API only -
+`SOCKSProxy.create_connection` and `SOCKSProxy.auto_detect_at_address` on the fake network of
+harness/socks_world.py (only the names `asyncio` / `socket` inside `aiorpcx.socks` are replaced;
+no private method or attribute of the library is called or read) - and the real protocol
+objects driven by hand, vs the Lean model (`drv_c17`); and the property oracle on every
+implementation trace.
 
 The oracle is written from the property text and the reply formats of the SOCKS4 protocol note,
-RFC 1928 and RFC 1929; it never looks at the model."""
+RFC 1928 and RFC 1929; it never looks at the model.  Compared with the model (disagreement):
+outcome, bytes left unread, bytes sent.  The exact sequence of recv sizes is an implementation
+choice (the property bounds it: the oracle's over-read clause) and is only counted."""
 import os
 from multiprocessing import Pool
 
 from harness.base import Results
 from harness import socks_common as sc
+from harness import socks_world as sw
 
 V4 = ('4', bytes([1, 2, 3, 4]))
 V6 = ('6', bytes(range(16)))
@@ -75,115 +80,78 @@ def classify(cfg, s):
 
 
 # ------------------------------------------------------------------ implementation side
-class FakeLoop:
-    """`loop` argument of `_handshake`.  The reply stream arrives in `segments`; `sock_recv(n)`
-    returns what is available of the current segment, at most n bytes; b'' at end of stream."""
-
-    def __init__(self, stream, segments):
-        self.stream = bytes(stream)
-        self.bounds = []
-        pos = 0
-        for ln in segments:
-            pos += ln
-            self.bounds.append(pos)
-        self.pos = 0
-        self.recvs = []
-        self.sent = []
-
-    async def sock_recv(self, sock, n):
-        if not isinstance(n, int) or n < 0:
-            raise ValueError('negative buffersize in recv')
-        if self.pos >= len(self.stream) or n == 0:
-            self.recvs.append((n, 0))
-            return b''
-        end = len(self.stream)
-        for b in self.bounds:
-            if b > self.pos:
-                end = min(end, b)
-                break
-        k = min(n, end - self.pos)
-        data = self.stream[self.pos:self.pos + k]
-        self.pos += k
-        self.recvs.append((n, k))
-        return data
-
-    async def sock_sendall(self, sock, data):
-        self.sent.append(bytes(data))
+_world = None
+_proxies = {}
+FACTORY = sw.Factory()
 
 
-class Watch:
-    """what `_handshake` is given as `client`: the real object plus a call budget"""
-
-    def __init__(self, client, limit):
-        self._c = client
-        self._left = limit
-
-    def next_message(self):
-        self._left -= 1
-        if self._left < 0:
-            raise Livelock()
-        return self._c.next_message()
-
-    def receive_data(self, data):
-        return self._c.receive_data(data)
-
-
-def drive(coro):
-    """run a coroutine whose awaits never suspend"""
-    try:
-        coro.send(None)
-    except StopIteration as e:
-        return e.value
-    coro.close()
-    raise RuntimeError('coroutine suspended on a fake loop')
+def world(**kw):
+    global _world
+    if _world is None:
+        _world = sw.World()
+    return _world.reset(**kw)
 
 
 def impl_handshake(mods, cfg, stream, segments):
-    loop = FakeLoop(stream, segments)
-    try:
-        client = sc.make_client(mods, CFGS[cfg])
-    except Exception as e:      # observed: a valid configuration was refused
-        return 'constructor-' + sc.exc_name(e), loop
-    proxy = mods.socks.SOCKSProxy(mods.util.NetAddress('localhost', 1080), type(client), None)
-    try:
-        r = drive(proxy._handshake(Watch(client, 4 * len(stream) + 40), object(), loop))
-        outcome = 'ok' if r is None else f'returned-{type(r).__name__}'
-    except Livelock:
-        outcome = 'Livelock'
-    except Exception as e:      # observed
-        outcome = sc.exc_name(e)
-    return outcome, loop
+    """create_connection to one destination through a proxy with one address whose replies are
+    `stream` in `segments` -> (outcome, the proxy connection or None)"""
+    proto, host, port, auth = CFGS[cfg]
+    w = world()
+    w.add_call(0, [[('t', stream, segments)]])
+    proxy = _proxies.get((id(mods), cfg))
+    if proxy is None:
+        proxy = _proxies[(id(mods), cfg)] = (sw.make_proxy(mods, proto, auth), sc.host_string(host))
+    r = sw.run_one(w, 0, proxy[0].create_connection(FACTORY, proxy[1], port))
+    return sw.outcome_name(r, mods.socks), (w.conns[0] if w.conns else None)
 
 
-def fmt_run(outcome, loop):
-    unread = loop.stream[loop.pos:]
-    recvs = ','.join(f'{k}:{n}' for k, n in loop.recvs) or '_'
-    sent = ';'.join((m.hex() or '-') for m in loop.sent) or '_'
-    return f'{outcome} {unread.hex() or "-"} {recvs} {sent}'
+def fmt_run(outcome, conn):
+    """(comparable text, recv pattern): outcome, unread bytes, concatenated bytes sent"""
+    if conn is None:
+        return f'{outcome} noconn', '_'
+    recvs = ','.join(f'{k}:{n}' for k, n in conn.recvs) or '_'
+    # what is left on the socket matters on success only (after a failure it is abandoned)
+    unread = (conn.unread.hex() or '-') if outcome == 'ok' else '*'
+    return f'{outcome} {unread} {conn.received.hex() or "-"}', recvs
 
 
-def hs_line(cfg, stream, loop):
-    sizes = ','.join(str(n) for _k, n in loop.recvs if n > 0) or '_'
-    return f'hs {sc.enc_case(CFGS[cfg])} {bytes(stream).hex() or "-"} {sizes}/1'
+def model_run(line):
+    """the driver's `<outcome> <unread> <recvs> <sent;...>` in the same comparable form"""
+    toks = line.split()
+    if len(toks) != 4:
+        return line, '_'
+    outcome, unread, recvs, sent = toks
+    sent = ''.join(m for m in sent.split(';') if m not in ('-', '_')) or '-'
+    if outcome != 'ok':
+        unread = '*'
+    return f'{outcome} {unread} {sent}', recvs
 
 
-def oracle_hs(cfg, stream, outcome, loop):
+def hs_line(cfg, stream, conn):
+    sizes = ','.join(str(n) for _k, n in (conn.recvs if conn else []) if n > 0) or '_'
+    return f'cc {sc.enc_case(CFGS[cfg])} {bytes(stream).hex() or "-"} {sizes}/1'
+
+
+def oracle_hs(cfg, stream, outcome, conn):
     """None if the property holds on this trace, else (key, why)."""
     allowed, H = classify(cfg, stream)
     if outcome not in ('ok', 'SOCKSFailure', 'SOCKSProtocolError'):
+        # no socket-level failure is injected here: the outcome must come from the reply bytes
         return 'c17:other-exception', f'{outcome} escaped the handshake'
     if outcome not in allowed:
         return (f'c17:outcome-{outcome}-expected-{"/".join(sorted(allowed))}',
                 f'replies call for {sorted(allowed)}, handshake gave {outcome}')
     if outcome == 'ok':
+        if conn is None:
+            return 'c17:over-read', 'success reported without a connection'
         got = 0
-        for k, n in loop.recvs:
+        for k, n in conn.recvs:
             if k < 1 or k > H - got:
                 return ('c17:over-read',
                         f'recv({k}) requested while only {H - got} handshake bytes were outstanding')
             got += n
-        if loop.pos != H:
-            return 'c17:over-read', f'{loop.pos} bytes taken from the socket, the handshake has {H}'
+        if conn.pos != H:
+            return 'c17:over-read', f'{conn.pos} bytes taken from the socket, the handshake has {H}'
     return None
 
 
@@ -194,6 +162,9 @@ def impl_object(mods, cfg, chunks):
         return ['E:constructor-' + sc.exc_name(e)], []
     out, raw = sc.drive_object(mods, client, chunks, fuel=len(chunks) + 8)
     return out, raw
+
+
+obj_observable = sc.observable_tokens
 
 
 def oracle_obj(cfg, chunks, out):
@@ -214,161 +185,158 @@ def oracle_obj(cfg, chunks, out):
     return None
 
 
-# _detect_proxy ---------------------------------------------------------------------------
-class FakeSocket:
-    def __init__(self, *a, **k):
-        self.closed = False
-
-    def setblocking(self, flag):
-        pass
-
-    def getpeername(self):
-        return ('127.0.0.1', 1080)
-
-    def close(self):
-        self.closed = True
+# detection: SOCKSProxy.auto_detect_at_address ---------------------------------------------
+# an attempt is None (connect refused) | bytes (reply stream) | 's' (socket.socket() raises)
+# | ('p', bytes) (the handshake runs, then getpeername() raises)
+PHASES = ('5', '4a', '4')       # the order auto_detect_at_address tries the protocols in
 
 
-class FakeSocketModule:
-    socket = FakeSocket
-    SOCK_STREAM = 1
-    AF_INET = 2
-
-
-class DetLoop:
-    def __init__(self, attempts):
-        self.attempts = attempts
-        self.k = -1
-        self.cur = None
-
-    async def getaddrinfo(self, host, port, **kw):
-        return [(2, 1, 6, '', ('127.0.0.1', 1080))] * len(self.attempts)
-
-    async def sock_connect(self, sock, addr):
-        self.k += 1
-        a = self.attempts[self.k]
-        if a is None:
-            raise ConnectionRefusedError('refused')
-        self.cur = FakeLoop(a, [1] * len(a))
-
-    async def sock_recv(self, sock, n):
-        return await self.cur.sock_recv(sock, n)
-
-    async def sock_sendall(self, sock, data):
-        return await self.cur.sock_sendall(sock, data)
-
-
-class FakeAsyncio:
-    def __init__(self, loop):
-        self._loop = loop
-
-    def get_event_loop(self):
-        return self._loop
-
-    get_running_loop = get_event_loop
+def w_attempt(a):
+    if a is None:
+        return ('x',)
+    if a == 's':
+        return ('s',)
+    if isinstance(a, tuple):
+        return ('p', bytes(a[1]), [1] * len(a[1]))
+    return ('t', bytes(a), [1] * len(a))
 
 
 def impl_detect(mods, proto, auth, attempts):
+    """detection of protocol `proto` at an address: the phases of the other protocols meet a
+    proxy address that refuses every connection"""
     socks = mods.socks
-    proxy = socks.SOCKSProxy(mods.util.NetAddress('localhost', 1080), mods.cls[proto],
-                             sc.make_auth(mods, auth))
-    loop = DetLoop(attempts)
-    saved = socks.asyncio, socks.socket
-    socks.asyncio, socks.socket = FakeAsyncio(loop), FakeSocketModule
+    w = world()
+    w.add_call(0, [[w_attempt(a) for a in attempts] if ph == proto else [('x',)] for ph in PHASES])
     try:
-        with sc.watchdog(5.0):
-            r = drive(proxy._detect_proxy())
-        return 'True' if r is True else 'False' if r is False else repr(r)
+        r = sw.run_one(w, 0, socks.SOCKSProxy.auto_detect_at_address(
+            mods.util.NetAddress(sw.PROXY_HOST, sw.PROXY_PORT), sc.make_auth(mods, auth)))
     except Livelock:
         return 'Livelock'
-    except Exception as e:      # observed
-        return 'E:' + sc.exc_name(e)
-    finally:
-        socks.asyncio, socks.socket = saved
+    if r[0] == 'exc':
+        return 'E:' + sw.outcome_name(r, socks)
+    if r[1] is None:
+        return 'False'
+    if getattr(r[1], 'protocol', None) is mods.cls[proto]:
+        return 'True'
+    return f'detected-{getattr(getattr(r[1], "protocol", None), "__name__", r[1])}'
 
 
-# _connect --------------------------------------------------------------------------------
-class ConLoop(DetLoop):
-    """one getaddrinfo entry per remote address; `attempts[k]` is what the k-th connection meets"""
+# several remote addresses: create_connection(resolve=True) ---------------------------------
+# behaviour of one remote address: 'x' | 's' | 'v6' (an IPv6 address: SOCKS4 cannot express it)
+# | tuple of reply bytes | ('p', tuple of reply bytes)
+def beh_attempt(b):
+    if b == 'x':
+        return ('x',)
+    if b == 's':
+        return ('s',)
+    if b == 'v6':
+        return ('t', b'', [])
+    if b and b[0] == 'p':
+        return ('p', bytes(b[1]), [])
+    return ('t', bytes(b), [])
 
-    async def getaddrinfo(self, host, port, **kw):
-        return [(2, 1, 6, '', ('127.0.0.1', 1080))]
 
-    async def sock_connect(self, sock, addr):
-        self.k += 1
-        a = self.attempts[self.k]
-        if a is None:
-            raise OSError('connection refused')
-        self.cur = FakeLoop(a, [len(a)] if a else [])
+def dest_info(i, b):
+    import socket
+    if b == 'v6':
+        return (socket.AF_INET6, socket.SOCK_STREAM, 6, '', (f'fd00::{i + 1:x}', 2000 + i, 0, 0))
+    return (socket.AF_INET, socket.SOCK_STREAM, 6, '', (f'10.1.0.{i + 1}', 2000 + i))
 
 
-def _with_fakes(mods, loop, fn):
+GRANT_BEH = {'5': tuple([5, 0, 5, 0, 0, 1, 0, 0, 0, 0, 0, 0]), '4': tuple([0, 90] + [0] * 6)}
+
+
+def run_resolve(mods, proto, behaviours):
     socks = mods.socks
-    saved = socks.asyncio, socks.socket
-    socks.asyncio, socks.socket = FakeAsyncio(loop), FakeSocketModule
-    try:
-        with sc.watchdog(5.0):
-            return fn()
-    finally:
-        socks.asyncio, socks.socket = saved
-
-
-def con_address(mods, proto, i, behaviour):
-    """remote address number i; behaviour 'v6' asks a SOCKS4 proxy for an IPv6 destination
-    (the constructor refuses: the exception escapes _connect_one)"""
-    if behaviour == 'v6':
-        return sc.make_address(mods, V6, 1000 + i)
-    return sc.make_address(mods, V4, 1000 + i)
+    infos = [dest_info(i, b) for i, b in enumerate(behaviours)]
+    w = world(dest_infos={'dest.test': infos})
+    w.add_call(0, [[beh_attempt(b)] for b in behaviours])
+    proxy = sw.make_proxy(mods, proto, None)
+    r = sw.run_one(w, 0, proxy.create_connection(sw.Factory(), 'dest.test', 80, resolve=True))
+    return r, w
 
 
 def impl_connect(mods, proto, behaviours):
-    """-> (model line, result of the real _connect, per-address outcomes)"""
+    """-> (model line, result of create_connection over all addresses, per-address tokens).
+    The per-address outcomes given to the model are OBSERVED, each address alone: `s` it yields
+    a connection; `e:<Exc>:<repr id>` it fails and the next address is still tried (seen by
+    putting a granting address behind it); `x:<Exc>` it fails and nothing further is tried."""
     socks = mods.socks
-    proxy = socks.SOCKSProxy(mods.util.NetAddress('localhost', 1080), mods.cls[proto], None)
-    addrs = [con_address(mods, proto, i, b) for i, b in enumerate(behaviours)]
-    streams = [None if b == 'x' else b'' if b == 'v6' else bytes(b) for b in behaviours]
     toks, reprs = [], {}
-    for addr, b, st in zip(addrs, behaviours, streams):
-        try:
-            r = _with_fakes(mods, ConLoop([st]), lambda: drive(proxy._connect_one(addr)))
-        except Exception as e:      # observed: escaped _connect_one
-            toks.append('x:' + sc.exc_name(e))
-            continue
-        if isinstance(r, FakeSocket):
+    for b in behaviours:
+        r, _w = run_resolve(mods, proto, [b])
+        if r[0] == 'ok':
             toks.append('s')
+            continue
+        name = sw.outcome_name(r, socks)
+        r2, _w = run_resolve(mods, proto, [b, GRANT_BEH[proto]])
+        if r2[0] == 'ok':
+            toks.append(f'e:{name}:{reprs.setdefault(repr(r[1]), len(reprs))}')
         else:
-            toks.append(f'e:{sc.exc_name(r)}:{reprs.setdefault(repr(r), len(reprs))}')
-    # the constructor raises before a connection is made: that address consumes no attempt
-    flat = [st for b, st in zip(behaviours, streams) if b != 'v6']
-    try:
-        r = _with_fakes(mods, ConLoop(flat), lambda: drive(proxy._connect(addrs)))
-        got = f'connected {addrs.index(r[1])}' if isinstance(r[0], FakeSocket) else repr(r)
-    except Livelock:
-        got = 'Livelock'
-    except Exception as e:          # observed
-        got = 'E:' + sc.exc_name(e)
+            toks.append('x:' + name)
+    r, w = run_resolve(mods, proto, behaviours)
+    if r[0] == 'ok':
+        # which address: the one the transport's connection was opened for
+        conn = getattr(getattr(r[1][0], 'sock', None), 'conn', None)
+        remote = getattr(r[1][1], '_remote_address', None)
+        idx = None
+        for i, b in enumerate(behaviours):
+            if remote is not None and str(getattr(remote, 'host', '')) == dest_info(i, b)[4][0]:
+                idx = i
+        if idx is None and conn is not None:
+            # fall back on which resolution of the proxy's address the connection belongs to
+            idx = conn.group if conn.group < len(behaviours) else None
+        got = f'connected {idx}'
+    else:
+        got = 'E:' + sw.outcome_name(r, socks)
     return 'con ' + ' '.join(toks), got, toks
 
 
+def socket_level(b):
+    return b in ('x', 's') or (isinstance(b, tuple) and b and b[0] == 'p')
+
+
 def oracle_connect(proto, behaviours, got):
+    """several remote addresses.  Property-level clauses only: success is reported only for an
+    address whose replies grant the request; otherwise a SOCKS error - or an OSError, but only
+    if some attempt failed at socket level (connect refused, socket() or getpeername() raising):
+    the text's "no other exception type escapes".  With a single address the outcome is fixed
+    by the replies.  (Which of several failures is reported, and whether an inexpressible address
+    aborts the whole call or is skipped, is left to the model comparison.)"""
     cfg = '4' if proto in ('4', '4a') else '5n'
-    for i, b in enumerate(behaviours):
-        if b == 'v6':
-            # inexpressible destination: a SOCKS error, nothing later is tried
-            return None if got == 'E:SOCKSProtocolError' else (
-                'c17:connect-result', f'address {i} cannot be expressed, _connect gave {got}')
-        if b != 'x' and classify(cfg, bytes(b))[0] == {'ok'}:
-            return None if got == f'connected {i}' else (
-                'c17:connect-result', f'address {i} is granted, _connect gave {got}')
-    if got not in ('E:SOCKSFailure', 'E:SOCKSProtocolError', 'E:OSError'):
+
+    def granted(b):
+        return not isinstance(b, str) and not socket_level(b) and classify(cfg, bytes(b))[0] == {'ok'}
+    if got.startswith('connected '):
+        tok = got.split()[1]
+        i = int(tok) if tok.isdigit() else -1
+        if not (0 <= i < len(behaviours)) or not granted(behaviours[i]):
+            return 'c17:connect-result', f'_connect reports success ({got}) for an address whose replies do not grant'
+        return None
+    if got == 'E:OSError':
+        if not any(socket_level(b) for b in behaviours):
+            return ('c17:oserror-without-socket-failure',
+                    'every attempt got as far as the SOCKS handshake (no connect / socket failure), yet a bare '
+                    'OSError escaped: the text allows only SOCKSFailure / SOCKSProtocolError here')
+        return None
+    if got not in ('E:SOCKSFailure', 'E:SOCKSProtocolError'):
         return 'c17:connect-result', f'no address is granted, _connect gave {got}'
+    if len(behaviours) == 1 and granted(behaviours[0]):
+        return 'c17:connect-result', f'the only address is granted, _connect gave {got}'
+    if len(behaviours) == 1 and not isinstance(behaviours[0], str) and not socket_level(behaviours[0]):
+        allowed = classify(cfg, bytes(behaviours[0]))[0]
+        if got[2:] not in allowed:
+            return 'c17:connect-result', f'replies call for {sorted(allowed)}, _connect gave {got}'
     return None
 
 
+ZERO5 = [5, 0, 5, 0, 0, 1, 0, 0, 0, 0, 0, 0]
 CON_POOL = {
-    '5': [[5, 0] + [5, 0, 0, 1, 9, 9, 9, 9, 0, 80], [5, 255], [5, 0, 5, 5, 0, 1, 0], [5, 0, 5, 2, 0, 1, 0],
-          [4, 0], [5, 0, 5, 0], 'x'],
-    '4': [[0, 90] + [0] * 6, [0, 91] + [0] * 6, [0, 92] + [0] * 6, [1, 90] + [0] * 6, [0, 90], 'x', 'v6'],
+    '5': [ZERO5, [5, 0] + [5, 0, 0, 1, 9, 9, 9, 9, 0, 80], [5, 255], [5, 0, 5, 5, 0, 1, 0], [5, 0, 5, 2, 0, 1, 0],
+          [4, 0], [5, 0, 5, 0], [5, 0, 5, 5, 0, 1, 0, 0, 0, 0, 0, 0], [5, 0, 5, 1, 0, 1, 0, 0, 0, 0, 0, 0],
+          'x', 's', ('p', tuple(ZERO5))],
+    '4': [[0, 90] + [0] * 6, [0, 91] + [0] * 6, [0, 92] + [0] * 6, [1, 90] + [0] * 6, [0, 90], 'x', 'v6', 's',
+          ('p', tuple([0, 90] + [0] * 6))],
 }
 
 
@@ -379,33 +347,31 @@ def con_cases(deep):
             yield proto, [a]
             for b in pool:
                 yield proto, [a, b]
-                if deep or (a != b):
+                if deep or (a != b and pool.index(a) % 2 == 0):
                     for c in pool:
                         yield proto, [a, b, c]
 
 
-DET_CFG = {'4': '4', '4a': '4a', '5': None}
-
-
 def oracle_detect(proto, auth, attempts, got):
-    """verdict = some attempt's handshake succeeds, or the last attempt is refused by a proxy"""
-    if got not in ('True', 'False'):
-        return 'c17:detect-verdict', f'_detect_proxy gave {got} instead of a verdict'
+    """Property-level clauses only: a verdict (True / False) - an exception may escape only when
+    a socket-level fault was injected; True whenever some attempt's replies grant the request
+    (and nothing failed at socket level); False when no attempt talks SOCKS at all (every
+    attempt refused to connect, or answered with a malformed / truncated reply).  In between
+    (a proxy that refuses, several attempts that differ) the verdict is an implementation
+    choice, compared with the model."""
     cfg = '4' if proto in ('4', '4a') else ('5a' if auth is not None else '5n')
-    last = None
-    for a in attempts:
-        if a is None:
-            last = {'OSError'}
-            continue
-        allowed, _ = classify(cfg, a)
-        if allowed == {'ok'}:
-            return None if got == 'True' else ('c17:detect-verdict', 'a handshake succeeds, verdict is not True')
-        last = allowed
-    if len(last) > 1:
+    sockfault = any(a == 's' or isinstance(a, tuple) for a in attempts)
+    if got not in ('True', 'False'):
+        if got == 'E:OSError' and sockfault:
+            return None
+        return 'c17:detect-verdict', f'detection gave {got} instead of a verdict'
+    if sockfault:
         return None
-    want = 'True' if last == {'SOCKSFailure'} else 'False'
-    if got != want:
-        return 'c17:detect-verdict', f'last attempt ends with {sorted(last)}, verdict {got}'
+    kinds = [{'OSError'} if a is None else classify(cfg, a)[0] for a in attempts]
+    if any(k == {'ok'} for k in kinds):
+        return None if got == 'True' else ('c17:detect-verdict', 'a handshake succeeds, verdict is not True')
+    if all(k in ({'OSError'}, {'SOCKSProtocolError'}) for k in kinds):
+        return None if got == 'False' else ('c17:detect-verdict', 'nothing that answered speaks SOCKS, verdict is True')
     return None
 
 
@@ -431,6 +397,7 @@ def granting_streams(cfg, lens):
         return
     for pre in prefixes(cfg):
         yield pre + reply5(1)
+        yield pre + reply5(1, fill=0)[:8] + [0, 0]      # the all-zero reply most proxies send
         yield pre + reply5(4)
         for n in lens:
             yield pre + reply5(3, n)
@@ -460,6 +427,45 @@ def decision_streams(cfg):
                     s = list(base)
                     s[pos] = v
                     yield s + PAD
+
+
+# faulty values of each decision byte, by its role
+FAULTS = {'vn4': (1, 255), 'cd4': (91, 255), 'ver': (1, 4, 255), 'method': (1, 255), 'authver': (0, 5),
+          'status': (1, 255), 'rep': (1, 255), 'rsv': (1, 255), 'atyp': (0, 255)}
+
+
+def double_fault_streams(cfg):
+    """two faulty decision bytes in the SAME reply: byte A takes all 256 values while byte B has
+    a faulty value - which check wins decides between SOCKSFailure and SOCKSProtocolError"""
+    if cfg in ('4', '4u', '4a'):
+        base = [0, 90, 1, 2, 3, 4, 5, 6]
+        roles = {0: 'vn4', 1: 'cd4'}
+        stages = [(base, roles)]
+    else:
+        stages = []
+        for pre in prefixes(cfg):
+            base = pre + reply5(1)
+            roles = {0: 'ver', 1: 'method'}
+            if len(pre) == 4:
+                roles.update({2: 'authver', 3: 'status'})
+            k = len(pre)
+            roles.update({k: 'ver', k + 1: 'rep', k + 2: 'rsv', k + 3: 'atyp'})
+            stages.append((base, roles))
+    for base, roles in stages:
+        # pairs inside one reply: same stage <=> both in 0..1, both in 2..3 (auth), or both in the last four
+        def stage(i):
+            n = len(base) - 10
+            return 0 if i < 2 else (1 if i < n else 2)
+        for i in roles:
+            for j in roles:
+                if i == j or stage(i) != stage(j):
+                    continue
+                for fb in FAULTS[roles[j]]:
+                    for v in range(256):
+                        s = list(base)
+                        s[i] = v
+                        s[j] = fb
+                        yield s + PAD[:24]
 
 
 def two_splits(n):
@@ -499,6 +505,12 @@ def hs_cases(deep, rng):
                     yield cfg, s, [j, len(s) - j]
                 for cut in range(1, 12):
                     yield cfg, s[:cut], [cut]
+        # two faults in one reply
+        if cfg in ('4', '5n', '5a') or deep:
+            for k, s in enumerate(double_fault_streams(cfg)):
+                yield cfg, s, [len(s)]
+                if deep or k % 256 in (0, 1, 2, 4, 5, 90, 91, 255):
+                    yield cfg, s, [1] * len(s)
 
 
 def random_stream(rng, cfg):
@@ -550,14 +562,17 @@ def obj_cases(deep, rng):
 
 DET_POOL = {
     '4': [[0, 90] + [0] * 6, [0, 91] + [0] * 6, [4, 90] + [0] * 6, [0, 90, 0], []],
-    '5': [[5, 0] + reply5(1), [5, 2, 1, 0] + reply5(1), [5, 255], [5, 2, 1, 1], [5, 0] + reply5(1, rep=5),
+    '5': [[5, 0] + reply5(1), ZERO5, [5, 2, 1, 0] + reply5(1), [5, 255], [5, 2, 1, 1], [5, 0] + reply5(1, rep=5),
           [5, 0, 5, 0, 1, 1], [4, 0], [5], [], [5, 0] + reply5(3, 2)[:6], [5, 0, 5, 2, 0, 1, 0]],
 }
 
 
 def det_cases(deep):
     for proto in ('4', '4a', '5'):
-        pool = [bytes(x) for x in DET_POOL['5' if proto == '5' else '4']] + [None]
+        base = [bytes(x) for x in DET_POOL['5' if proto == '5' else '4']]
+        # socket-level faults: socket.socket() raising, getpeername() raising after a grant /
+        # after a refusal
+        pool = base + [None, 's', ('p', base[0]), ('p', base[1] if proto != '5' else base[3])]
         auths = (None, ('u', 'p')) if proto == '5' else (None, ('u', 'p'))
         for auth in auths:
             for a in pool:
@@ -569,41 +584,68 @@ def det_cases(deep):
                             yield proto, auth, [a, b, c]
 
 
+def enc_det_attempt(a):
+    if a is None:
+        return 'x'
+    if a == 's':
+        return 's'
+    if isinstance(a, tuple):
+        return 'p' + (bytes(a[1]).hex() or '-')
+    return a.hex() or '-'
+
+
 def det_line(proto, auth, attempts):
-    return f'det {proto} {sc.enc_auth(auth)} ' + ' '.join(
-        'x' if a is None else (a.hex() or '-') for a in attempts)
+    return f'det {proto} {sc.enc_auth(auth)} ' + ' '.join(enc_det_attempt(a) for a in attempts)
 
 
 def corpus_cases(verif):
+    """-> (hs cases, con cases); a con line is `con <proto> <behaviour> ...`"""
     path = os.path.join(verif, 'corpus', 'C17.txt')
-    out = []
+    out, con = [], []
     if os.path.exists(path):
         for line in open(path):
             line = line.split('#')[0].strip()
-            if line:
-                toks = line.split()
-                out.append((toks[0], list(bytes.fromhex(toks[1]) if toks[1] != '-' else b''),
-                            [int(x) for x in toks[2].split(',')] if len(toks) > 2 and toks[2] != '_' else []))
-    return out
+            if not line:
+                continue
+            toks = line.split()
+            if toks[0] == 'con':
+                con.append((toks[1], [dec_beh(t) for t in toks[2:]]))
+                continue
+            out.append((toks[0], list(bytes.fromhex(toks[1]) if toks[1] != '-' else b''),
+                        [int(x) for x in toks[2].split(',')] if len(toks) > 2 and toks[2] != '_' else []))
+    return out, con
 
 
 # ------------------------------------------------------------------ evaluation
 _mods = None
+_patch = None
 
 
 def _init(repo):
-    global _mods
+    """modules of the tree under test, with the fake network patched in for good (this process
+    runs nothing else)"""
+    global _mods, _patch, _world
+    if _mods is not None and _mods.repo == repo:
+        return
     _mods = sc.Mods(repo)
+    _mods.repo = repo
+    _world = None
+    _patch = sw.patched(_mods, world())
+    _patch.__enter__()
 
 
 def _hs_batch(cases):
     out = []
     for cfg, stream, seg in cases:
         stream = bytes(stream)
-        outcome, loop = impl_handshake(_mods, cfg, stream, seg)
-        bad = oracle_hs(cfg, stream, outcome, loop)
-        out.append((fmt_run(outcome, loop), hs_line(cfg, stream, loop), bad, outcome,
-                    classify(cfg, stream)))
+        try:
+            with sc.watchdog(5.0):
+                outcome, conn = impl_handshake(_mods, cfg, stream, seg)
+        except Livelock:
+            outcome, conn = 'Livelock', None
+        bad = oracle_hs(cfg, stream, outcome, conn)
+        text, recvs = fmt_run(outcome, conn)
+        out.append((text, hs_line(cfg, stream, conn), bad, outcome, classify(cfg, stream), recvs))
     return out
 
 
@@ -618,17 +660,40 @@ def _pool_map(ctx, fn, cases, chunk=4000):
     return [r for p in parts for r in p]
 
 
-def eval_hs(ctx, cases, res, scope_name):
+class Pending:
+    """the model driver running on a batch of lines in the background (it is a separate
+    process: the implementation side of the next family runs meanwhile)"""
+
+    def __init__(self, ctx, lines):
+        import threading
+        self.out, self.err = None, None
+
+        def work():
+            try:
+                self.out = ctx.model(lines)
+            except BaseException as e:      # re-raised in get()
+                self.err = e
+        self.t = threading.Thread(target=work)
+        self.t.start()
+
+    def get(self):
+        self.t.join()
+        if self.err is not None:
+            raise self.err
+        return self.out
+
+
+def eval_hs(ctx, cases, res, scope_name, later=None):
+    """later: a list - the comparison with the model is appended to it as a thunk instead of
+    being done at once"""
     cases = list(cases)
     outs = _pool_map(ctx, _hs_batch, cases)
-    model = ctx.model([o[1] for o in outs])
+    pending = Pending(ctx, [o[1] for o in outs])
     by_stream = {}
-    for i, ((cfg, stream, seg), (text, line, bad, outcome, (allowed, H))) in enumerate(zip(cases, outs)):
+    for (cfg, stream, seg), (text, line, bad, outcome, (allowed, H), recvs) in zip(cases, outs):
         cj = {'op': 'hs', 'cfg': cfg, 'stream': bytes(stream).hex(), 'segments': seg}
         if bad:
             res.violation(bad[0], cj, bad[1], impl=text[:300])
-        if model is not None and model[i] != text:
-            res.disagreement(cj, text[:400], model[i][:400], line=line[:400])
         key = (cfg, bytes(stream))
         prev = by_stream.setdefault(key, outcome)
         if prev != outcome:
@@ -637,13 +702,28 @@ def eval_hs(ctx, cases, res, scope_name):
         res.count('hs_' + outcome)
         res.count('hs_expected_' + '/'.join(sorted(allowed)))
         res.count('hs_with_trailing_bytes', H is not None and len(stream) > H)
-        res.count('hs_recv_calls', text.count(':'))
+        res.count('hs_recv_calls', recvs.count(':'))
         if len(seg) > 1:
             res.nontrivial((cfg, bytes(stream), tuple(seg)))
     res['evaluations'] += len(cases)
     res['scopes'][scope_name] = res['scopes'].get(scope_name, 0) + len(cases)
     res['scopes'][scope_name + '_distinct_streams'] = \
         res['scopes'].get(scope_name + '_distinct_streams', 0) + len(by_stream)
+
+    def compare():
+        model = pending.get()
+        if model is None:
+            return
+        for i, ((cfg, stream, seg), (text, line, _b, _o, _c, recvs)) in enumerate(zip(cases, outs)):
+            mtext, mrecvs = model_run(model[i])
+            if mtext != text:
+                cj = {'op': 'hs', 'cfg': cfg, 'stream': bytes(stream).hex(), 'segments': seg}
+                res.disagreement(cj, text[:400], mtext[:400], line=line[:400])
+            res.count('hs_recv_pattern_as_model' if mrecvs == recvs else 'hs_recv_pattern_differs')
+    if later is None:
+        compare()
+    else:
+        later.append(compare)
     return outs
 
 
@@ -655,21 +735,37 @@ def _obj_batch(cases):
     return out
 
 
-def eval_obj(ctx, cases, res, scope_name):
+def eval_obj(ctx, cases, res, scope_name, later=None):
     cases = list(cases)
+    pending = Pending(ctx, [f'obj {sc.enc_case(CFGS[cfg])} ' + ' '.join((c.hex() or '-') for c in chunks)
+                            for cfg, chunks in cases])
     outs = _pool_map(ctx, _obj_batch, cases)
-    model = ctx.model([f'obj {sc.enc_case(CFGS[cfg])} ' + ' '.join((c.hex() or '-') for c in chunks)
-                       for cfg, chunks in cases])
-    for i, ((cfg, chunks), (text, bad)) in enumerate(zip(cases, outs)):
-        cj = {'op': 'obj', 'cfg': cfg, 'chunks': [c.hex() for c in chunks]}
+    for (cfg, chunks), (text, bad) in zip(cases, outs):
         if bad:
+            cj = {'op': 'obj', 'cfg': cfg, 'chunks': [c.hex() for c in chunks]}
             res.violation(bad[0], cj, bad[1], impl=text[:300])
-        if model is not None and model[i] != text:
-            res.disagreement(cj, text[:400], model[i][:400])
         last = text.split()[-1] if text else 'empty'
         res.count('obj_' + ('starved' if last[:1] == 'N' and last != 'None' else last[:24]))
     res['evaluations'] += len(cases)
     res['scopes'][scope_name] = res['scopes'].get(scope_name, 0) + len(cases)
+
+    def compare():
+        model = pending.get()
+        if model is None:
+            return
+        for i, ((cfg, chunks), (text, _bad)) in enumerate(zip(cases, outs)):
+            if obj_observable(model[i].split()) != obj_observable(text.split()):
+                cj = {'op': 'obj', 'cfg': cfg, 'chunks': [c.hex() for c in chunks]}
+                res.disagreement(cj, text[:400], model[i][:400])
+            res.count('obj_need_counts_as_model' if model[i] == text else 'obj_need_counts_differ')
+    if later is None:
+        compare()
+    else:
+        later.append(compare)
+
+
+def det_json(proto, auth, attempts):
+    return {'op': 'det', 'proto': proto, 'auth': auth, 'attempts': [enc_det_attempt(a) for a in attempts]}
 
 
 def eval_det(ctx, cases, res, scope_name):
@@ -677,9 +773,12 @@ def eval_det(ctx, cases, res, scope_name):
     _init(ctx.repo)
     model = ctx.model([det_line(*c) for c in cases])
     for i, (proto, auth, attempts) in enumerate(cases):
-        got = impl_detect(_mods, proto, auth, attempts)
-        cj = {'op': 'det', 'proto': proto, 'auth': auth,
-              'attempts': [None if a is None else a.hex() for a in attempts]}
+        try:
+            with sc.watchdog(5.0):
+                got = impl_detect(_mods, proto, auth, attempts)
+        except Livelock:
+            got = 'Livelock'
+        cj = det_json(proto, auth, attempts)
         bad = oracle_detect(proto, auth, attempts, got)
         if bad:
             res.violation(bad[0], cj, bad[1], impl=got)
@@ -690,14 +789,35 @@ def eval_det(ctx, cases, res, scope_name):
     res['scopes'][scope_name] = res['scopes'].get(scope_name, 0) + len(cases)
 
 
+def enc_beh(b):
+    if isinstance(b, str):
+        return b
+    if b and b[0] == 'p':
+        return 'p' + bytes(b[1]).hex()
+    return bytes(b).hex() or '-'
+
+
+def dec_beh(t):
+    if t in ('x', 's', 'v6'):
+        return t
+    if t.startswith('p'):
+        return ('p', tuple(bytes.fromhex(t[1:])))
+    return tuple(bytes.fromhex(t)) if t != '-' else ()
+
+
 def eval_con(ctx, cases, res, scope_name):
     cases = list(cases)
     _init(ctx.repo)
-    outs = [impl_connect(_mods, proto, beh) for proto, beh in cases]
+    outs = []
+    for proto, beh in cases:
+        try:
+            with sc.watchdog(10.0):
+                outs.append(impl_connect(_mods, proto, beh))
+        except Livelock:
+            outs.append(('con x:OSError', 'Livelock', []))
     model = ctx.model([o[0] for o in outs])
     for i, ((proto, beh), (line, got, toks)) in enumerate(zip(cases, outs)):
-        cj = {'op': 'con', 'proto': proto,
-              'behaviours': [b if isinstance(b, str) else bytes(b).hex() for b in beh]}
+        cj = {'op': 'con', 'proto': proto, 'behaviours': [enc_beh(b) for b in beh]}
         bad = oracle_connect(proto, beh, got)
         if bad:
             res.violation(bad[0], cj, bad[1], impl=got)
@@ -708,38 +828,113 @@ def eval_con(ctx, cases, res, scope_name):
     res['scopes'][scope_name] = res['scopes'].get(scope_name, 0) + len(cases)
 
 
-RULE = ('hs case = (client configuration, reply stream, segmentation) run through the real '
-        '_handshake on a fake loop: outcome, bytes left unread, every (requested, returned) recv '
-        'pair and every message sent are compared with the model; obj case = protocol object fed '
-        'by hand with chunks of any size; det case = _detect_proxy over a list of attempts.  '
-        'Exhaustive: all 256 values of every decision byte, bound-address lengths 0..255, '
-        'whole / 1-byte / 2-split segmentations, EOF at every offset, trailing bytes; plus seeded '
-        'random streams.  distinct non-trivial = distinct (configuration, stream, segmentation) '
-        'with at least two segments; con case = _connect over 1..3 remote addresses whose '
-        '_connect_one outcomes (socket / returned exception with its repr / escaped exception) are '
-        'observed separately and given to the model')
+def cc_cases(deep, rng):
+    """two or three concurrent create_connection calls on ONE SOCKSProxy object, each meeting
+    its own reply stream: every call's outcome must depend on ITS replies only"""
+    for cfg in ('5n', '5a', '4'):
+        g = list(granting_streams(cfg, (0, 3)))
+        grant = bytes(g[0] + [0x16, 3])
+        if cfg == '4':
+            pool = [grant, bytes([0, 91] + [0] * 6), bytes([1, 90] + [0] * 6), grant[:3], b'']
+        else:
+            pre = prefixes(cfg)[-1]
+            pool = [grant, bytes(g[-1]), bytes(pre + reply5(1, rep=5)), bytes(pre + [5, 0, 1, 1]), bytes(pre[:1]),
+                    bytes([5, 255]), bytes(pre + reply5(3, 4))[:len(pre) + 7]]
+        for a in pool:
+            for b in pool:
+                scheds = [[i % 2 for i in range(80)], [0, 0, 0, 1, 1] * 20, []]
+                scheds.append([rng.randrange(2) for _ in range(80)])
+                if deep:
+                    scheds += [[rng.randrange(2) for _ in range(80)] for _ in range(4)]
+                for sched in scheds:
+                    yield cfg, [a, b], sched
+        yield cfg, [pool[0], pool[1], pool[2]], [i % 3 for i in range(120)]
+
+
+def eval_cc(ctx, cases, res, scope_name):
+    cases = list(cases)
+    _init(ctx.repo)
+    lines, texts, metas = [], [], []
+    for cfg, streams, sched in cases:
+        proto, host, port, auth = CFGS[cfg]
+        w = world(yields=True)
+        proxy = sw.make_proxy(_mods, proto, auth)
+        coros = {}
+        for i, st in enumerate(streams):
+            w.add_call(i, [[('t', st, [2, 1, 3])]])
+            coros[i] = proxy.create_connection(FACTORY, sc.host_string(host), port)
+        try:
+            with sc.watchdog(10.0):
+                sw.run_interleaved(w, coros, sched)
+        except Livelock:
+            pass
+        cj = {'op': 'cc', 'cfg': cfg, 'streams': [st.hex() for st in streams], 'schedule': sched}
+        for i, st in enumerate(streams):
+            call = w.calls[i]
+            outcome = sw.outcome_name(call.result, _mods.socks)
+            conn = call.conns[0] if call.conns else None
+            bad = oracle_hs(cfg, st, outcome, conn)
+            text, _recvs = fmt_run(outcome, conn)
+            if bad:
+                res.violation(bad[0], cj, f'call {i} (replies {st.hex() or "-"}): {bad[1]}', impl=text[:300])
+            lines.append(hs_line(cfg, st, conn))
+            texts.append(text)
+            metas.append((cj, i))
+        res.count('cc_calls', len(streams))
+        res.nontrivial(('cc', cfg, tuple(streams), tuple(sched[:16])))
+    model = ctx.model(lines)
+    for (cj, i), t, m in zip(metas, texts, model or []):
+        mt, _r = model_run(m)
+        if mt != t:
+            res.disagreement(dict(cj, call=i), t[:400], mt[:400])
+    res['evaluations'] += len(cases)
+    res['scopes'][scope_name] = res['scopes'].get(scope_name, 0) + len(cases)
+
+
+RULE = ('hs case = (client configuration, reply stream, segmentation) met by the public '
+        'create_connection on a fake network (one proxy address): outcome, bytes left unread and '
+        'bytes sent are compared with the model, every (requested, returned) recv pair is judged '
+        'by the oracle (never more than the handshake bytes outstanding); obj case = protocol '
+        'object fed by hand with chunks of any size; det case = auto_detect_at_address over a '
+        'list of attempts incl. socket()/getpeername() failures.  Exhaustive: all 256 values of '
+        'every decision byte, alone and with a second faulty byte of the same reply, '
+        'bound-address lengths 0..255, whole / 1-byte / 2-split segmentations, EOF at every '
+        'offset, trailing bytes; plus seeded random streams.  distinct non-trivial = distinct '
+        '(configuration, stream, segmentation) with at least two segments; con case = '
+        'create_connection(resolve=True) over 1..3 remote addresses whose individual outcomes '
+        '(connection / failure after which the next address is tried, with its repr / failure '
+        'that aborts) are observed separately and given to the model; cc case = two or three '
+        'concurrent create_connection calls on one proxy object, each with its own reply stream, '
+        'interleaved at the awaits of the fake loop by a schedule')
 
 
 def run(ctx):
     res = Results()
     rng = ctx.rng
-    cc = corpus_cases(ctx.verif)
+    _init(ctx.repo)
+    cc, ccon = corpus_cases(ctx.verif)
+    if ccon:
+        eval_con(ctx, ccon, res, 'corpus')
     if cc:
         eval_hs(ctx, cc, res, 'corpus')
-    outs = eval_hs(ctx, hs_cases(ctx.deep, rng), res, 'handshake_exhaustive')
+    later = []
+    outs = eval_hs(ctx, hs_cases(ctx.deep, rng), res, 'handshake_exhaustive', later)
     for o in outs[:1] + outs[len(outs) // 2:len(outs) // 2 + 2]:
         res.sample({'line': o[1][:160], 'impl': o[0][:160]})
     if not res.failed or ctx.deep:
-        eval_obj(ctx, obj_cases(ctx.deep, rng), res, 'objects_by_hand')
+        eval_obj(ctx, obj_cases(ctx.deep, rng), res, 'objects_by_hand', later)
     eval_det(ctx, det_cases(ctx.deep), res, 'detect_proxy')
     eval_con(ctx, con_cases(ctx.deep), res, 'connect_addresses')
+    eval_cc(ctx, cc_cases(ctx.deep, rng), res, 'concurrent_calls_one_proxy')
     ngen = 120000 if ctx.deep else 8000
     gen = []
     for _ in range(ngen):
         cfg = rng.choice(list(CFGS))
         s = random_stream(rng, cfg)
         gen.append((cfg, s, random_segments(rng, len(s))))
-    eval_hs(ctx, gen, res, 'handshake_generated')
+    eval_hs(ctx, gen, res, 'handshake_generated', later)
+    for compare in later:
+        compare()
     return res.finish(RULE, exhaustive=not res.failed)
 
 
@@ -747,17 +942,27 @@ def replay(ctx, case):
     if 'case' in case and isinstance(case['case'], dict):
         case = case['case']
     res = Results()
+    _init(ctx.repo)
     op = case.get('op', 'hs')
     if op == 'hs':
         eval_hs(ctx, [(case['cfg'], list(bytes.fromhex(case['stream'])), case['segments'])], res, 'replay')
     elif op == 'obj':
         eval_obj(ctx, [(case['cfg'], [bytes.fromhex(c) for c in case['chunks']])], res, 'replay')
     elif op == 'con':
-        eval_con(ctx, [(case['proto'], [b if b in ('x', 'v6') else tuple(bytes.fromhex(b))
-                                        for b in case['behaviours']])], res, 'replay')
+        eval_con(ctx, [(case['proto'], [dec_beh(b) for b in case['behaviours']])], res, 'replay')
+    elif op == 'cc':
+        eval_cc(ctx, [(case['cfg'], [bytes.fromhex(x) for x in case['streams']], case['schedule'])], res, 'replay')
     else:
         auth = tuple(case['auth']) if case['auth'] else None
-        eval_det(ctx, [(case['proto'], auth,
-                        [None if a is None else bytes.fromhex(a) for a in case['attempts']])], res, 'replay')
+
+        def dec(a):
+            if a in (None, 'x'):
+                return None
+            if a == 's':
+                return 's'
+            if a.startswith('p'):
+                return ('p', bytes.fromhex(a[1:]) if a[1:] != '-' else b'')
+            return bytes.fromhex(a) if a != '-' else b''
+        eval_det(ctx, [(case['proto'], auth, [dec(a) for a in case['attempts']])], res, 'replay')
     res.sample(case)
     return res.finish('replay of one recorded case')
